@@ -24,7 +24,8 @@ POOL = ["py_ok", "py_raise", "sh_ok", "sh_fail", "wf_ok", "wf_fail"]
 def run_one(case):
     base = tempfile.mkdtemp(prefix="verif_prov_")
     try:
-        p = subprocess.run([core.PY, "-m", "harness.prov_child", base, case["kind"], case["flag"], case["worker"]],
+        p = subprocess.run([core.PY, "-m", "harness.prov_child", base, case["kind"], case["flag"], case["worker"]]
+                           + (["default-dir"] if case.get("default_dir") else []),
                            env=core.child_env(hooks=True), capture_output=True, text=True, timeout=600)
         if not os.path.exists(os.path.join(base, "out.json")):
             return {"machinery": p.stderr[-800:]}
@@ -75,6 +76,8 @@ def run(ctx):
         raise core.MachineryError("model insensitive: SharedAuditId does not violate OneStartOneEndSameId")
     cases = [{"kind": k, "flag": f, "worker": "debug"} for k in POOL for f in ("PROV", "ALL")]
     cases += [{"kind": k, "flag": "PROV", "worker": "cf"} for k in (["wf_ok", "wf_fail", "py_ok"] if ctx.thorough else ["wf_ok"])]
+    # the FileMessenger's default directory (<cwd>/messages): start and end record of one activity belong together
+    cases += [{"kind": k, "flag": "PROV", "worker": "debug", "default_dir": True} for k in ("py_ok", "py_raise", "wf_ok")]
     outs = core.tmap(run_one, cases, threads=6)
     lines = []
     for tid, (c, o) in enumerate(zip(cases, outs), 1):
@@ -88,6 +91,14 @@ def run(ctx):
                           case={"case": c}, expected=want, observed={k: o.get(k) for k in ("status", "error")})
             continue
         t = build_trace(c, o)
+        if c.get("default_dir"):
+            where = {}
+            for m in o["msgs"]:
+                where.setdefault(m["id"], {})[m["kind"]] = m["dir"]
+            split = {i: w for i, w in where.items() if len(set(w.values())) > 1 or set(w) != {"start", "end"}}
+            if split:
+                ctx.violation(f"default message directory: start and end record of one activity are not emitted together ({c})",
+                              case={"case": c}, expected="start and end record side by side", observed=split)
         if c["worker"] == "cf":
             # hook events of pool workers interleave; nesting is by job name only
             pass
